@@ -175,10 +175,10 @@ pub fn canon_kind(r: &str) -> &'static str {
 pub type Caller = Box<dyn Fn(&[Arg]) -> String>;
 
 macro_rules! sigs {
-    ($pkg:expr, $sig:expr; $( $name:literal => ($($a:ty),*) -> $r:ty ),* $(,)?) => {
+    ($pkg:expr, $sig:expr, $entry:expr; $( $name:literal => ($($a:ty),*) -> $r:ty ),* $(,)?) => {
         match $sig {
             $( $name => {
-                let f = $pkg.get_function::<fn($($a),*) -> $r>("main").map_err(|e| format!("{e:?}"))?;
+                let f = $pkg.get_function::<fn($($a),*) -> $r>($entry).map_err(|e| format!("{e:?}"))?;
                 let b: Caller = Box::new(move |args: &[Arg]| {
                     #[allow(unused_mut, unused_variables)]
                     let mut it = args.iter();
@@ -198,8 +198,12 @@ type LS = List<RotoString>;
 type LC = List<char>;
 
 pub fn make_caller(pkg: &mut Package<NoCtx>, sig: &str) -> Result<Caller, String> {
-    sigs!(pkg, sig;
-        ">S" => () -> S, ">ip" => () -> Ip, ">u64" => () -> u64,
+    make_caller_at(pkg, sig, "main")
+}
+
+pub fn make_caller_at(pkg: &mut Package<NoCtx>, sig: &str, entry: &str) -> Result<Caller, String> {
+    sigs!(pkg, sig, entry;
+        ">S" => () -> S, ">ip" => () -> Ip, ">u64" => () -> u64, ">lu" => () -> LU, "lu,lu>ou64" => (LU, LU) -> Option<u64>,
         "S>S" => (S) -> S, "S>u64" => (S) -> u64, "S>b" => (S) -> bool,
         "S>lu8" => (S) -> List<u8>, "S>lc" => (S) -> List<char>, "S>lS" => (S) -> List<S>,
         "S,S>S" => (S, S) -> S, "S,S>b" => (S, S) -> bool, "S,S>lS" => (S, S) -> List<S>, "S,S>oS" => (S, S) -> Option<S>,
@@ -239,6 +243,8 @@ pub struct Case {
     /// stable id of the script
     pub id: String,
     pub src: String,
+    /// the function of the script that is called (`main` unless the script has one entry per operation)
+    pub entry: &'static str,
     pub sig: &'static str,
     pub class: String,
     pub args: Vec<Arg>,
@@ -310,7 +316,7 @@ impl Tab {
     fn add(&mut self, name: &'static str, covers: &[&'static str], id: &str, src: &str, sig: &'static str,
            class: impl Into<String>, args: Vec<Arg>, lean: Option<String>) {
         self.out.push(Case {
-            name, covers: covers.to_vec(), id: id.to_string(), src: src.to_string(), sig,
+            name, covers: covers.to_vec(), id: id.to_string(), src: src.to_string(), entry: "main", sig,
             class: class.into(), args, lean, solo: false,
         });
     }
@@ -345,6 +351,7 @@ pub fn cases(seed: u64, thorough: bool) -> Vec<Case> {
     strings(&mut t, &mut prng, thorough);
     lists(&mut t, thorough);
     host_lists(&mut t, thorough);
+    elem_lists(&mut t, thorough);
     to_strings(&mut t, &mut prng, thorough);
     floats(&mut t, &mut prng, thorough);
     t.out
@@ -802,6 +809,184 @@ fn host_lists(t: &mut Tab, thorough: bool) {
 }
 
 // ------------------------------------------------------------------- to_string
+
+
+// ------------------------------------- lists of every class of element type
+
+/// An element type of the alphabet: `List[T]`'s Rust code is type-erased and sees
+/// `T` only through the vtable the *lowerer* builds (size, align, clone/drop/eq
+/// callbacks), so the element type is an argument class of every list built-in.
+pub struct ElemTy {
+    pub name: &'static str,
+    /// declarations the script needs
+    pub decl: &'static str,
+    /// the Roto type
+    pub ty: &'static str,
+    /// distinct values `v(0) … v(K-1)` (a zero-sized type has one value)
+    pub vals: &'static [&'static str],
+    /// element size class for the model: 0 (zero-sized), 1, or 8 (anything in 2..=1024 bytes)
+    pub size: u32,
+    pub needs_clone: bool,
+    pub needs_drop: bool,
+}
+
+pub const ELEM_TYPES: &[ElemTy] = &[
+    // zero-sized: no IR type, nothing to copy, one value
+    ElemTy { name: "unit", decl: "", ty: "()", vals: &["()"], size: 0, needs_clone: false, needs_drop: false },
+    ElemTy { name: "record-of-units", decl: "record M { seen: (), done: () }\n", ty: "M", vals: &["M { seen: (), done: () }"], size: 0, needs_clone: false, needs_drop: false },
+    ElemTy { name: "empty-record", decl: "record E {}\n", ty: "E", vals: &["E {}"], size: 0, needs_clone: false, needs_drop: false },
+    ElemTy { name: "nested-record-of-units", decl: "record M { seen: (), done: () }\nrecord MM { m: M, u: () }\n", ty: "MM",
+             vals: &["MM { m: M { seen: (), done: () }, u: () }"], size: 0, needs_clone: false, needs_drop: false },
+    // one byte
+    ElemTy { name: "bool", decl: "", ty: "bool", vals: &["false", "true"], size: 1, needs_clone: false, needs_drop: false },
+    ElemTy { name: "u8", decl: "", ty: "u8", vals: &["0", "1", "255", "7"], size: 1, needs_clone: false, needs_drop: false },
+    ElemTy { name: "single-variant-enum", decl: "enum One { Only }\n", ty: "One", vals: &["One.Only"], size: 1, needs_clone: false, needs_drop: false },
+    ElemTy { name: "option-of-unit", decl: "", ty: "()?", vals: &["None", "Some(())"], size: 1, needs_clone: false, needs_drop: false },
+    // plain data
+    ElemTy { name: "i32", decl: "", ty: "i32", vals: &["0", "-1", "2147483647", "7"], size: 8, needs_clone: false, needs_drop: false },
+    ElemTy { name: "u64", decl: "", ty: "u64", vals: &["0", "1", "9223372036854775807", "7"], size: 8, needs_clone: false, needs_drop: false },
+    ElemTy { name: "f64", decl: "", ty: "f64", vals: &["0.0", "1.5", "-2.25", "1000000.0"], size: 8, needs_clone: false, needs_drop: false },
+    ElemTy { name: "char", decl: "", ty: "char", vals: &["'a'", "'\u{e9}'", "'\u{65e5}'", "'z'"], size: 8, needs_clone: false, needs_drop: false },
+    ElemTy { name: "IpAddr", decl: "", ty: "IpAddr", vals: &["1.1.1.1", "::1", "10.0.0.1", "2001:db8::1"], size: 8, needs_clone: false, needs_drop: false },
+    ElemTy { name: "Prefix", decl: "", ty: "Prefix", vals: &["10.0.0.0/8", "::/0", "1.1.1.1/32", "2001:db8::/32"], size: 8, needs_clone: false, needs_drop: false },
+    ElemTy { name: "Asn", decl: "", ty: "Asn", vals: &["AS0", "AS1", "AS65536", "AS4294967295"], size: 8, needs_clone: false, needs_drop: false },
+    ElemTy { name: "option-of-u64", decl: "", ty: "u64?", vals: &["None", "Some(0)", "Some(1)", "Some(7)"], size: 8, needs_clone: false, needs_drop: false },
+    // owning: clone and drop callbacks
+    ElemTy { name: "String", decl: "", ty: "String", vals: &["\"\"", "\"a\"", "\"\u{65e5}\u{672c}\"", "\"a longer string that is not stored inline anywhere\""],
+             size: 8, needs_clone: true, needs_drop: true },
+    ElemTy { name: "option-of-String", decl: "", ty: "String?", vals: &["None", "Some(\"\")", "Some(\"a\")", "Some(\"bcd\")"], size: 8, needs_clone: true, needs_drop: true },
+    ElemTy { name: "record", decl: "record R { a: u8, b: u64, c: String }\n", ty: "R",
+             vals: &["R { a: 0, b: 0, c: \"\" }", "R { a: 1, b: 0, c: \"\" }", "R { a: 0, b: 0, c: \"x\" }", "R { a: 0, b: 9, c: \"\" }"], size: 8, needs_clone: true, needs_drop: true },
+    ElemTy { name: "enum", decl: "enum Col { Red, Green(u64), Blue(String) }\n", ty: "Col",
+             vals: &["Col.Red", "Col.Green(1)", "Col.Green(2)", "Col.Blue(\"b\")"], size: 8, needs_clone: true, needs_drop: true },
+    // lists of lists: the element callbacks are list operations themselves, with their own vtable
+    ElemTy { name: "List[u64]", decl: "", ty: "List[u64]", vals: &["[]", "[1]", "[1, 2]", "[2]"], size: 8, needs_clone: true, needs_drop: true },
+    ElemTy { name: "List[String]", decl: "", ty: "List[String]", vals: &["[]", "[\"a\"]", "[\"a\", \"b\"]", "[\"\"]"], size: 8, needs_clone: true, needs_drop: true },
+    ElemTy { name: "List[()]", decl: "", ty: "List[()]", vals: &["[]", "[()]", "[(), ()]", "[(), (), ()]"], size: 8, needs_clone: true, needs_drop: true },
+];
+
+/// One script per element type, one entry function per operation.  Elements travel as
+/// codes: `v(k)` is the k-th value of the type, `code(e)` its inverse (through `==` on `T`).
+pub fn elem_script(t: &ElemTy) -> String {
+    let k = t.vals.len();
+    let mut v = String::new();
+    for (i, x) in t.vals.iter().enumerate() {
+        if i + 1 < k {
+            v.push_str(&format!("if k == {i} {{ {x} }} else "));
+        } else if k > 1 {
+            v.push_str(&format!("{{ {x} }}"));
+        } else {
+            v.push_str(x);
+        }
+    }
+    let mut code = String::new();
+    for i in 0..k {
+        code.push_str(&format!("if e == v({i}) {{ {i} }} else "));
+    }
+    code.push_str("{ 99 }");
+    let ty = t.ty;
+    let last = k - 1;
+    format!(
+        "{decl}fn v(k: u64) -> {ty} {{ {v} }}\n\
+         fn code(e: {ty}) -> u64 {{ {code} }}\n\
+         fn mk(s: List[u64]) -> List[{ty}] {{ let l: List[{ty}] = List.new(); for k in s {{ l.push(v(k)); }} l }}\n\
+         fn codes(l: List[{ty}]) -> List[u64] {{ let r: List[u64] = List.new(); for e in l {{ r.push(code(e)); }} r }}\n\
+         fn op_len(s: List[u64]) -> u64 {{ mk(s).len() }}\n\
+         fn op_capacity(s: List[u64]) -> u64 {{ mk(s).capacity() }}\n\
+         fn op_is_empty(s: List[u64]) -> bool {{ mk(s).is_empty() }}\n\
+         fn op_codes(s: List[u64]) -> List[u64] {{ codes(mk(s)) }}\n\
+         fn op_literal() -> List[u64] {{ codes([v(0), v({last}), v(0)]) }}\n\
+         fn op_get(s: List[u64], i: u64) -> u64? {{ match mk(s).get(i) {{ Some(e) => Some(code(e)), None => None }} }}\n\
+         fn op_contains(s: List[u64], x: u64) -> bool {{ mk(s).contains(v(x)) }}\n\
+         fn op_index(s: List[u64], x: u64) -> u64? {{ mk(s).index(v(x)) }}\n\
+         fn op_push(s: List[u64], x: u64) -> List[u64] {{ let l = mk(s); l.push(v(x)); codes(l) }}\n\
+         fn op_swap(s: List[u64], i: u64, j: u64) -> List[u64] {{ let l = mk(s); l.swap(i, j); codes(l) }}\n\
+         fn op_concat(s: List[u64], t: List[u64]) -> List[u64] {{ codes(mk(s).concat(mk(t))) }}\n\
+         fn op_plus(s: List[u64], t: List[u64]) -> List[u64] {{ codes(mk(s) + mk(t)) }}\n\
+         fn op_eq(s: List[u64], t: List[u64]) -> bool {{ mk(s) == mk(t) }}\n\
+         fn op_ne(s: List[u64], t: List[u64]) -> bool {{ mk(s) != mk(t) }}\n\
+         fn op_eq_alias(s: List[u64]) -> bool {{ let l = mk(s); l == l }}\n\
+         fn op_concat_alias(s: List[u64]) -> List[u64] {{ let l = mk(s); codes(l.concat(l)) }}\n\
+         fn op_nested_index(s: List[u64], t: List[u64]) -> u64? {{ let ll = [mk(s), mk(t)]; ll.index(mk(t)) }}\n",
+        decl = t.decl,
+    )
+}
+
+/// Lists created by compiled code (`List.new()`, literals) of every element-type class × every
+/// list built-in × list shapes (empty / singleton / duplicates+distinct / growth boundary).
+/// The model (`c10 <pw> el <size> <needs_clone> <needs_drop> <op> <codes> …`) gives the result on
+/// the codes and, from the generated vtable facts, whether a callback the operation calls is null.
+fn elem_lists(t: &mut Tab, thorough: bool) {
+    for et in ELEM_TYPES {
+        let src = elem_script(et);
+        let k = et.vals.len() as u64;
+        let last = k - 1;
+        // codes the script produces: a one-valued type maps every code to 0
+        let mut shapes: Vec<(&'static str, Vec<u64>)> = vec![
+            ("empty", vec![]),
+            ("singleton", vec![0]),
+            ("many-dups", vec![0, last, 0]),
+            ("many-5", vec![last, last.min(1), 0, last, last]),
+        ];
+        if thorough {
+            shapes.push(("many-33", (0..33).map(|i| i % k).collect()));
+            if k > 2 {
+                shapes.push(("many-distinct", (0..k).collect()));
+            }
+        }
+        let tok = |l: &[u64]| lu_tok(l);
+        let base = format!("c10 {PW} el {} {} {}", et.size, et.needs_clone as u8, et.needs_drop as u8);
+        let mut add = |name: &'static str, covers: &[&'static str], entry: &'static str, sig: &'static str, class: String, args: Vec<Arg>, lean: String| {
+            t.out.push(Case {
+                name, covers: covers.to_vec(), id: format!("List[{}].{entry}", et.name), src: src.clone(), entry, sig,
+                class: format!("elem={} {class}", et.name), args, lean: Some(format!("{base} {lean}")), solo: false,
+            });
+        };
+        let mk: &[&'static str] = &["List.new", "List.push"];
+        add("List.new", &["List.push", "List.get"], "op_literal", ">lu", "literal [v0, vK, v0]".into(), vec![],
+            format!("codes {}", tok(&[0, last, 0])));
+        for (sc, l) in &shapes {
+            let n = l.len() as u64;
+            let la = Arg::LU(l.clone());
+            let lt = tok(l);
+            add("List.len", mk, "op_len", "lu>u64", format!("{sc}"), vec![la.clone()], format!("len {lt}"));
+            add("List.capacity", mk, "op_capacity", "lu>u64", format!("{sc}"), vec![la.clone()], format!("capacity {lt}"));
+            add("List.is_empty", mk, "op_is_empty", "lu>b", format!("{sc}"), vec![la.clone()], format!("is_empty {lt}"));
+            add("List.push", &["List.new", "List.get"], "op_codes", "lu>lu", format!("{sc} build+for-loop"), vec![la.clone()], format!("codes {lt}"));
+            add("List.get", mk, "op_eq_alias", "lu>b", format!("{sc} ==same-list"), vec![la.clone()], format!("eq_alias {lt}"));
+            add("List.concat", mk, "op_concat_alias", "lu>lu", format!("{sc} other=same-list"), vec![la.clone()], format!("concat {lt} {lt}"));
+            let mut idx: Vec<(u64, &str)> = vec![(0, "0")];
+            for (i, il) in [(n.wrapping_sub(1), "len-1"), (n, "len"), (u64::MAX, "u64max")] {
+                if !idx.iter().any(|(j, _)| *j == i) {
+                    idx.push((i, il));
+                }
+            }
+            for (i, il) in &idx {
+                add("List.get", mk, "op_get", "lu,u64>ou64", format!("{sc} idx={il}"), vec![la.clone(), u(*i)], format!("get {lt} {i}"));
+            }
+            let xs: Vec<u64> = if k == 1 { vec![0] } else if k == 2 { vec![0, 1] } else { vec![0, last, 1] };
+            for x in &xs {
+                let present = if l.contains(x) { "present" } else { "absent" };
+                add("List.contains", mk, "op_contains", "lu,u64>b", format!("{sc} item={present}"), vec![la.clone(), u(*x)], format!("contains {lt} {x}"));
+                add("List.index", mk, "op_index", "lu,u64>ou64", format!("{sc} item={present}"), vec![la.clone(), u(*x)], format!("index {lt} {x}"));
+            }
+            add("List.push", mk, "op_push", "lu,u64>lu", format!("{sc}"), vec![la.clone(), u(last)], format!("push {lt} {last}"));
+            for (i, j, cl) in [(0u64, 0u64, "i=j=0"), (0, n.wrapping_sub(1), "i=0 j=len-1"), (n.wrapping_sub(1), n, "i=len-1 j=len"), (1, 1, "i=j=1")] {
+                add("List.swap", mk, "op_swap", "lu,u64,u64>lu", format!("{sc} {cl}"), vec![la.clone(), u(i), u(j)], format!("swap {lt} {i} {j}"));
+            }
+            for (mc, m) in &shapes {
+                let ma = Arg::LU(m.clone());
+                let mt = tok(m);
+                add("List.concat", mk, "op_concat", "lu,lu>lu", format!("{sc} other={mc}"), vec![la.clone(), ma.clone()], format!("concat {lt} {mt}"));
+                add("List.concat", mk, "op_plus", "lu,lu>lu", format!("{sc} + {mc}"), vec![la.clone(), ma.clone()], format!("concat {lt} {mt}"));
+                add("List.get", mk, "op_eq", "lu,lu>b", format!("{sc} == {mc}"), vec![la.clone(), ma.clone()], format!("eq {lt} {mt}"));
+                add("List.get", mk, "op_ne", "lu,lu>b", format!("{sc} != {mc}"), vec![la.clone(), ma.clone()], format!("ne {lt} {mt}"));
+                add("List.index", &["List.new", "List.push"], "op_nested_index", "lu,lu>ou64", format!("list-of-lists [{sc}, {mc}].index({mc})"),
+                    vec![la.clone(), ma.clone()], format!("nested_index {lt} {mt}"));
+            }
+        }
+    }
+}
 
 fn to_strings(t: &mut Tab, prng: &mut Prng, thorough: bool) {
     let table: [(STy, &'static str, &'static str); 11] = [
